@@ -16,7 +16,7 @@ LEVEL = "exploration"
 RULE = ("cases: (a) per flavour the opcode/mnemonic tables built by Flavour.__init__ (icontract postcondition); "
         "(b) per flavour x instruction class x operand field position: a sweep over ALL values of that field "
         "(64 registers / 256 immediates / 90 boundary+walking-one int32 values) with the other fields random; "
-        "(c) header sweeps (app ids, version bytes); (d) random instruction sequences of length 0..64 mixing all "
+        "(c) header sweeps (app ids, version bytes); (d) random instruction sequences of length 0..64 (3%: up to ~10000, at block boundaries) mixing all "
         "classes. Each is encoded with bytes(Subroutine) and decoded with deserialize(.., flavour). A case is "
         "non-trivial when it encodes at least one instruction with at least one operand; distinct = distinct case "
         "descriptions (hash of canonical JSON)."
@@ -118,10 +118,16 @@ def cases(ctx):
         for flav in ("vanilla", "nv"):
             yield {"kind": "threaded-decode", "flavour": flav, "threads": 4, "rounds": ctx.n(60, 4000), "seed": rng.randrange(2**31)}
     nseq = ctx.n(300, 400000)
-    for _ in range(nseq):
+    for i_seq in range(nseq):
         flav = rng.choice(["vanilla", "nv", "reids"])
         names = sorted(isa.TABLE[flav])
         ln = rng.choice([0, 1, 2, 3, 5, 8, 13, 21, 34, 64]) if rng.random() < 0.5 else rng.randrange(65)
+        r_long = rng.random()
+        if r_long < 0.03 or i_seq == 0:
+            # "instruction sequences of any length": long programs too (block-wise decoding has its boundaries at powers of two of
+            # commands or bytes: 7 * ln around 1024, 4096, 65536 ...)
+            ln = rng.choice([127, 128, 146, 147, 255, 256, 257, 585, 586, 1023, 1024, 1025, 4096, 9362, 9363, rng.randrange(65, 3000)])
+            ctx.count("long_programs")
         ins = []
         for _ in range(ln):
             m = rng.choice(names)
